@@ -2655,7 +2655,8 @@ def run_tubytes(ctx: C.Ctx) -> None:
         else:              # outside the modelled object grammar: the model must say so (or agree)
             secs = gen_sections(rng, wild=False, nsec=1)
             data = spell_seq(rng, render_sections(secs), False)
-            data = rng.choice([b"<< /A 1 >> ", b"[ 1 foo ] ", b"true ", b"{ 1 } ", b"[ [ 1 ] ] "]) + data
+            data = rng.choice([b"<< /A 1 >> ", b"[ 1 foo ] ", b"true ", b"{ 1 } ", b"[ [ 1 ] ] ",
+                               b"<01> <02> [ /A /space ] endbfrange "]) + data
             check_tubytes(ctx, b, data, None, "outside")
     flush_tub(ctx, b)
 
